@@ -56,13 +56,18 @@ def run(prog: Program, res: Result, tier: str) -> None:
     o_ref = obj("typed.List([temp.ref_bin for temp in self.temp_bank])")
     conv = f"kernels.convolve_templates(self.zscores.data, {o_data}, {o_ref})"
     peak = f"np.unravel_index({conv}.argmax(), {conv}.shape)"
+    # the flat argmax of a C-ordered (ntemplates, nbins) array: unravel_index, or divmod by the row length
+    flat = f"int({conv}.argmax())"
+    idx_forms = {(f"{peak}[0]", f"{peak}[1]"),
+                 (f"FloorDiv({flat}, {conv}.shape[1])", f"Mod({flat}, {conv}.shape[1])"),
+                 (f"FloorDiv({conv}.argmax(), {conv}.shape[1])", f"Mod({conv}.argmax(), {conv}.shape[1])")}
     checks = [
         ("kernels and reference bins are listed from the same bank in the same order", o_data is not None and o_ref is not None),
         ("the standardised data (z-scores) are convolved with (kernels, ref_bins)", value_of("self._convs") == conv),
         ("(template, bin) = unravel_index(argmax of the response matrix)",
-         value_of("self._itemp") == f"{peak}[0]" and value_of("self._peak_bin") == f"{peak}[1]"),
-        ("best template = bank[itemp]", value_of("self._best_temp") in (f"self.temp_bank[{peak}[0]]", "self.temp_bank[self._itemp]")),
-        ("S/N = response[itemp, peak_bin]", value_of("self._best_snr") in (f"{conv}[{peak}[0], {peak}[1]]", "self._convs[self._itemp, self._peak_bin]")),
+         (value_of("self._itemp"), value_of("self._peak_bin")) in idx_forms),
+        ("best template = bank[itemp]", value_of("self._best_temp") in {f"self.temp_bank[{i_}]" for i_, _ in idx_forms} | {"self.temp_bank[self._itemp]"}),
+        ("S/N = response[itemp, peak_bin]", value_of("self._best_snr") in {f"{conv}[{i_}, {j_}]" for i_, j_ in idx_forms} | {"self._convs[self._itemp, self._peak_bin]"}),
     ]
     for what, ok in checks:
         (res.ok if ok else res.bad)("R2", cp, cp.node, what if ok else f"MatchedFilter._compute no longer satisfies: {what}", construct=what, key=what[:50])
